@@ -2,8 +2,9 @@
    configurations", and what "self-consistent devices" means.
 
    The snapshot the property talks about is, per configuration: address, identifiers,
-   services with ports and properties, model, deep-sleep flag.  The device NAME and the
-   per-type raw property table are deliberately not part of it (property text). *)
+   services with ports and properties (the merged per-protocol ones and the per-service-type
+   table config.properties), model, deep-sleep flag.  The device NAME is deliberately not
+   part of it (property text). *)
 From Coq Require Import List Bool Arith NArith.
 From PV Require Import Common.Cases C12.Model C12.DictLemmas.
 Import ListNotations.
@@ -20,7 +21,9 @@ Definition svcs_equiv (l l' : list bsvc) : Prop :=
   (forall b', In b' l' -> exists b, In b l /\ bsvc_equiv b b').
 
 Definition config_equiv (c d : config) : Prop :=
-  caddr c = caddr d /\ cdeep c = cdeep d /\ cmodel c = cmodel d /\ svcs_equiv (csvcs c) (csvcs d).
+  caddr c = caddr d /\ cdeep c = cdeep d /\ cmodel c = cmodel d /\ svcs_equiv (csvcs c) (csvcs d) /\
+  (* the per-service-type property table config.properties *)
+  (forall ty, dget str_eqb ty (cprops c) = dget str_eqb ty (cprops d)).
 
 (* same set of configurations *)
 Definition snapshot_equiv (l l' : list config) : Prop :=
@@ -59,7 +62,7 @@ Definition hint_of (lk : lookups) (it : item) : option N := model_hint lk (ity i
 (* Consistency of what is announced about ONE address (across sources and service instances):
    K1  services that map to the same protocol agree on identifier and port and do not
        contradict each other in any property,
-   K2  two announcements of the same service type give the same model hint,
+   K2  two announcements of the same service type carry the same properties,
    K3  all announcements come with the same deep-sleep flag and _device-info model,
    K4  the model hints of the different service types do not contradict each other. *)
 Definition items_consistent (lk : lookups) (D : list item) : Prop :=
@@ -67,7 +70,7 @@ Definition items_consistent (lk : lookups) (D : list item) : Prop :=
       ih x = Some (nm, b) -> ih y = Some (nm', b') -> bproto b = bproto b' ->
       bident b = bident b' /\ bport b = bport b' /\
       (forall k v v', In (k, v) (bprops b) -> In (k, v') (bprops b') -> v = v')) /\
-  (forall x y, In x D -> In y D -> ia x = ia y -> ity x = ity y -> hint_of lk x = hint_of lk y) /\
+  (forall x y, In x D -> In y D -> ia x = ia y -> ity x = ity y -> iprops x = iprops y) /\
   (forall x y nm b nm' b', In x D -> In y D -> ia x = ia y ->
       ih x = Some (nm, b) -> ih y = Some (nm', b') -> ideep x = ideep y /\ imodel x = imodel y) /\
   (forall x y m m', In x D -> In y D -> ia x = ia y ->
